@@ -53,21 +53,18 @@ func (so *setObject) export(ctx *objectExportCtx) interface{} {
 	if v, exists := ctx.get(so.val); exists {
 		return v
 	}
-	a := make([]interface{}, so.m.size)
+	items := so.m.snapshot()
+	a := make([]interface{}, len(items))
 	ctx.put(so.val, a)
-	iter := so.m.newIter()
-	for i := 0; i < len(a); i++ {
-		entry := iter.next()
-		if entry == nil {
-			break
-		}
-		a[i] = exportValue(entry.key, ctx)
+	for i, item := range items {
+		a[i] = exportValue(item[0], ctx)
 	}
 	return a
 }
 
 func (so *setObject) exportToArrayOrSlice(dst reflect.Value, typ reflect.Type, ctx *objectExportCtx) error {
-	l := so.m.size
+	items := so.m.snapshot()
+	l := len(items)
 	if typ.Kind() == reflect.Array {
 		if dst.Len() != l {
 			return fmt.Errorf("cannot convert a Set into an array, lengths mismatch: have %d, need %d)", l, dst.Len())
@@ -76,14 +73,9 @@ func (so *setObject) exportToArrayOrSlice(dst reflect.Value, typ reflect.Type, c
 		dst.Set(reflect.MakeSlice(typ, l, l))
 	}
 	ctx.putTyped(so.val, typ, dst.Interface())
-	iter := so.m.newIter()
 	r := so.val.runtime
-	for i := 0; i < l; i++ {
-		entry := iter.next()
-		if entry == nil {
-			break
-		}
-		err := r.toReflectValue(entry.key, dst.Index(i), ctx)
+	for i, item := range items {
+		err := r.toReflectValue(item[0], dst.Index(i), ctx)
 		if err != nil {
 			return err
 		}
